@@ -1288,6 +1288,7 @@ func (s *S3Proxy) ListObjectsV2(ctx context.Context, input *s3.ListObjectsV2Inpu
 		Name:                  out.Name,
 		NextContinuationToken: out.NextContinuationToken,
 		Prefix:                out.Prefix,
+		StartAfter:            out.StartAfter,
 		KeyCount:              out.KeyCount,
 	}, nil
 }
